@@ -652,6 +652,20 @@ def cg_case(ctx, model, rng):
             L = loss.SquaredL2Loss(y=snp.array(y), A=linop.MatrixOperator(snp.array(A)), scale=float(P["scale"]),
                                    W=None if w is None else linop.Diagonal(snp.array(w)), prox_kwargs=kw)
             L = pc.apply_rescale(L, P["rescale"])
+            hist = []
+            if rng.random() < 0.6:
+                # history on the SAME object: an earlier prox with another lam / input, optionally a set_scale in between -
+                # nothing that depends on lam or scale (system operator, right-hand side) may survive from the earlier call
+                lam0 = pg.pick(rng, [t for t in pg.LAMS if t != lam])
+                L.prox(snp.array(pg.dy(rng, n)), lam0)
+                hist.append("prox@other-lam")
+                if rng.random() < 0.5:
+                    c_new = pg.pick(rng, pg.SCALES)
+                    L.set_scale(float(c_new))
+                    P = {"scale": c_new, "rescale": []}
+                    hist.append("set_scale")
+            desc["history"] = hist
+            desc["params_in_force"] = P
             x = np.asarray(L.prox(snp.array(v), lam, **({"x0": snp.array(x0)} if x0 is not None else {})), dtype=np.float64)
         except Exception as e:  # noqa: BLE001
             if not _raised_in_scico(e):
@@ -672,7 +686,8 @@ def cg_case(ctx, model, rng):
     r_np = Msys @ x - b
     tol = float((kw or {}).get("tol", 1e-5))
     capped = (kw or {}).get("maxiter", 100) < n  # cg may stop before convergence: only the bound of the theorem applies
-    ctx.count("cg:" + ("capped-maxiter" if capped else f"tol={tol:g}") + (":x0" if x0 is not None else "") + (":W" if w is not None else ""))
+    ctx.count("cg:" + ("capped-maxiter" if capped else f"tol={tol:g}") + (":x0" if x0 is not None else "") + (":W" if w is not None else "")
+              + "".join(":" + h for h in hist))
     ctx.case({k: desc[k] for k in ("fam", "m", "n", "lam", "params", "prox_kwargs")}, "cg-" + hashlib.sha1(json.dumps(desc, sort_keys=True).encode()).hexdigest()[:16])
 
     def orc(_c):
